@@ -369,15 +369,42 @@ def angle_creations(tree: ast.Module) -> tuple[list[tuple[str, str, int]], dict]
                 setters.add(f.name)
     info['angle_property_setters'] = sorted(setters)
 
-    def is_raw_new(e: ast.AST, cls: str | None) -> bool:
-        """X.__new__(X) for an angle class X, cls.__new__(cls) / object.__new__(cls) inside an angle class"""
-        if not (isinstance(e, ast.Call) and isinstance(e.func, ast.Attribute) and e.func.attr == '__new__' and len(e.args) == 1
-                and isinstance(e.args[0], ast.Name)):
-            return False
-        a = e.args[0].id
-        if a in ANGLE_CTORS:
+    OTHER_CTORS = MUTABLE_CTORS | FROZEN_CTORS | {'VecBase', 'MatrixBase', 'Py_VecBase', 'Py_MatrixBase'}
+
+    def class_is_angle(c: ast.AST, cls: str | None, fn: ast.AST, depth: int = 0) -> bool:
+        """Can the class expression of an `X.__new__(C)` call denote an angle class?  False only when it provably denotes
+        a vector/matrix class; anything not understood counts as an angle class (the creation is then listed and must be
+        completely initialised)."""
+        params = [a.arg for a in fn.args.posonlyargs + fn.args.args + fn.args.kwonlyargs] if isinstance(fn, (ast.FunctionDef, ast.AsyncFunctionDef)) else []
+        first = params[0] if params else None
+        in_angle = cls in ANGLE_CLASSES
+        if isinstance(c, ast.Name):
+            if c.id in ANGLE_CTORS or c.id in ('AngleBase', 'Py_AngleBase'):
+                return True
+            if c.id in OTHER_CTORS:
+                return False
+            env = _single_bindings(fn)
+            if c.id in env and depth < 4:
+                return class_is_angle(env[c.id], cls, fn, depth + 1)      # `cls = type(self)` / `cls = type(other)`
+            if c.id == first and cls is not None and (c.id == 'cls' or (isinstance(fn, ast.FunctionDef) and (_is_classmethod(fn) or fn.name == '__new__'))):
+                return in_angle                                           # the class the method was called on
             return True
-        return a == 'cls' and cls in ANGLE_CLASSES
+        if isinstance(c, ast.Call) and isinstance(c.func, ast.Name) and c.func.id == 'type' and len(c.args) == 1 \
+                and isinstance(c.args[0], ast.Name) and c.args[0].id == first and cls is not None \
+                and isinstance(fn, ast.FunctionDef) and not _is_classmethod(fn) and fn.name != '__new__':
+            return in_angle                                               # type(self)
+        if isinstance(c, ast.Attribute) and c.attr == '__class__' and isinstance(c.value, ast.Name) and c.value.id == first and cls is not None \
+                and isinstance(fn, ast.FunctionDef) and not _is_classmethod(fn) and fn.name != '__new__':
+            return in_angle                                               # self.__class__
+        return True
+
+    def is_raw_new(e: ast.AST, cls: str | None, fn: ast.AST) -> bool:
+        """X.__new__(C) / object.__new__(C) / super().__new__(C) where C may be an angle class"""
+        if not (isinstance(e, ast.Call) and isinstance(e.func, ast.Attribute) and e.func.attr == '__new__'):
+            return False
+        if len(e.args) >= 1 and not isinstance(e.args[0], ast.Starred):
+            return class_is_angle(e.args[0], cls, fn)
+        return True
 
     def is_ctor(e: ast.AST, cls: str | None) -> bool:
         if not isinstance(e, ast.Call):
@@ -413,7 +440,7 @@ def angle_creations(tree: ast.Module) -> tuple[list[tuple[str, str, int]], dict]
         for n in _own_nodes(fn):
             if is_ctor(n, cls):
                 out.append((where, 'ViaCtor', n.lineno))
-            elif is_raw_new(n, cls):
+            elif is_raw_new(n, cls, fn):
                 par = parent.get(id(n))
                 kind = 'CreateOther'
                 if isinstance(par, ast.Call) and isinstance(par.func, ast.Attribute) and par.func.attr == '_to_angle' \
